@@ -38,6 +38,7 @@ Definition corr (c : case) : bool :=
 Definition oracle (c : case) : bool :=
   steps_ok ost0 (k_labels c) (o_steps c) &&
   atmost_ok (k_labels c) (o_steps c) &&
-  exact_ok (k_quiescent c) (k_labels c) (o_steps c).
+  exact_ok (k_quiescent c) (k_labels c) (o_steps c) &&
+  frames_ok false (k_labels c) (o_steps c).
 
 Definition run (cs : list case) := failing corr oracle cs.
